@@ -131,6 +131,9 @@ def run_obligations(scratch, obls, tier, jobs=None, timeout_s=None, mem_gb=None)
                                          "line": (c.get("location") or {}).get("line"),
                                          "category": c.get("category")} for c in real[:8]]
                 res.update(status="violated")
+            elif any(c.get("status") == "Error" for c in checks):
+                res.update(status="inconclusive", reason="CBMC solver error on %d checks (resource limit: memory %s GB) - "
+                           "not a verdict" % (sum(1 for c in checks if c.get("status") == "Error"), mem_gb))
             else:
                 res.update(status="inconclusive", reason="Kani reports failure without a failed check: "
                            + json.dumps(e)[:200])
@@ -173,9 +176,19 @@ def replay(scratch, cands, prop, timeout_s=600):
     env["CARGO_TARGET_DIR"] = os.path.join(scratch.dir, "target-playback")
     env["RUST_BACKTRACE"] = "0"
     cmd = ["cargo", "kani", "playback", "-p", "axmosdb", "-Z", "concrete-playback", "--", "kani_concrete_playback_",
-           "--test-threads", "4"]
+           "--test-threads", "1"]
     rc, txt, wall = run(cmd, cwd=scratch.src, env=env, timeout=1800)
     failed_tests = set(re.findall(r"^test (\S+) \.\.\. FAILED", txt, re.M))
+    # a test that kills the process (abort on allocation failure, stack overflow) never prints its verdict
+    crashed = set(re.findall(r"^test (\S+) \.\.\. (?!ok|FAILED|ignored)", txt, re.M)) if "signal" in txt else set()
+    while crashed:
+        # re-run the remaining tests one by one, skipping the ones that crashed the harness process
+        failed_tests |= crashed
+        cmd2 = cmd + sum([["--skip", c.split("::")[-1]] for c in failed_tests | set(re.findall(r"^test (\S+) \.\.\. ok", txt, re.M))], [])
+        rc, t2, wall = run(cmd2, cwd=scratch.src, env=env, timeout=1800)
+        txt += "\n" + t2
+        failed_tests |= set(re.findall(r"^test (\S+) \.\.\. FAILED", t2, re.M))
+        crashed = (set(re.findall(r"^test (\S+) \.\.\. (?!ok|FAILED|ignored)", t2, re.M)) if "signal" in t2 else set()) - failed_tests
     passed_tests = set(re.findall(r"^test (\S+) \.\.\. ok", txt, re.M))
     built = bool(failed_tests or passed_tests)
     for o in cands:
@@ -219,9 +232,11 @@ def replay_file(path):
         env["CARGO_TARGET_DIR"] = os.path.join(sc.dir, "target-playback")
         env["RUST_BACKTRACE"] = "0"
         cmd = ["cargo", "kani", "playback", "-p", "axmosdb", "-Z", "concrete-playback", "--",
-               "kani_concrete_playback_"]
+               "kani_concrete_playback_", "--test-threads", "1"]
         rc, out, wall = run(cmd, cwd=sc.src, env=env, timeout=1800)
         failed = re.findall(r"^test (\S+) \.\.\. FAILED", out, re.M)
+        if "signal" in out:
+            failed += re.findall(r"^test (\S+) \.\.\. (?!ok|FAILED|ignored)", out, re.M)
         ok = re.findall(r"^test (\S+) \.\.\. ok", out, re.M)
         for l in out.splitlines():
             if l.startswith("test ") or "panicked at" in l:
